@@ -1864,7 +1864,7 @@ func namespaceAlwaysPrepended(c *Check, a *Anchors) {
 			continue
 		}
 		for _, arg := range call.Args {
-			if fieldSel(minfo, arg, PkgAst, "Include", "Namespace") {
+			if fieldOrLocalOf(c.P, minfo, arg, PkgAst, "Include", "Namespace") {
 				if d := c.P.DeclOf(fn); d != nil && d.Type.Results != nil && d.Type.Results.NumFields() == 1 {
 					if tv, ok := minfo.Types[d.Type.Results.List[0].Type]; ok && types.TypeString(tv.Type, nil) == "string" && len(call.Args) == 2 {
 						helper = d
@@ -1896,7 +1896,7 @@ func namespaceAlwaysPrepended(c *Check, a *Anchors) {
 	for _, call := range mergeCalls {
 		if a.is(callee(minfo, call), helper) {
 			for i, arg := range call.Args {
-				if fieldSel(minfo, arg, PkgAst, "Include", "Namespace") {
+				if fieldOrLocalOf(c.P, minfo, arg, PkgAst, "Include", "Namespace") {
 					nsIdx = i
 				}
 			}
@@ -1923,8 +1923,7 @@ func namespaceAlwaysPrepended(c *Check, a *Anchors) {
 		root := false
 		for p := pm[ast.Node(r)]; p != nil; p = pm[p] {
 			if ifs, ok := p.(*ast.IfStmt); ok && within(r, ifs.Body) {
-				if call, ok := ast.Unparen(ifs.Cond).(*ast.CallExpr); ok && isFunc(callee(info, call), "strings", "", "HasPrefix") && len(call.Args) == 2 &&
-					varOf(info, call.Args[0]) == name && constIs(info, call.Args[1], `":"`) {
+				if x, pfx, _, ok := prefixTest(info, ifs); ok && varOf(info, x) == name && constIs(info, pfx, `":"`) {
 					root = true
 				}
 			}
@@ -2449,7 +2448,7 @@ func aliasFromLocalNameIn(c *Check, a *Anchors, merge *FuncBody, ord map[string]
 			return false
 		}
 		for _, arg := range call.Args {
-			if fieldSel(info, arg, PkgAst, "Include", "Namespace") {
+			if fieldOrLocalOf(c.P, info, arg, PkgAst, "Include", "Namespace") {
 				return true
 			}
 		}
@@ -4191,4 +4190,85 @@ func deepCopyNilSafe(c *Check, a *Anchors, rule string) {
 			fnDisplay(fb)+" dereferences its receiver without a preceding nil test, unlike its sibling DeepCopy methods: the generic copier calls it on the nil element that a `- null` list entry decodes to, and the merge of an included Taskfile panics")
 	}
 	c.Floor(rule, n, 10)
+}
+
+// reflectIsNilGuarded (C16): reflect.Value.IsNil panics for every kind but chan, func, interface, map, pointer and slice.
+func reflectIsNilGuarded(c *Check, a *Anchors, rule string) {
+	c.Rule(rule, "every call of reflect.Value.IsNil in Task's own code lies in a case clause of a switch on the Kind() of the SAME value that lists nillable kinds only (Chan, Func, Interface, Map, Pointer/Ptr, Slice, UnsafePointer), or follows `x.Kind() == <nillable kind> &&`: IsNil on a string, number or struct value panics — and a templated variable can be any Go value a template function returns (sprig's split gives map[string]string)")
+	nillable := map[string]bool{"Chan": true, "Func": true, "Interface": true, "Map": true, "Pointer": true, "Ptr": true, "Slice": true, "UnsafePointer": true}
+	n := 0
+	ord := map[string]int{}
+	for _, fb := range c.P.Bodies() {
+		if !strings.HasPrefix(fb.Pkg.PkgPath, Mod) || bceSkipPkgs[fb.Pkg.PkgPath] {
+			continue
+		}
+		info := fb.Info()
+		var pm map[ast.Node]ast.Node
+		inspectBody(fb.Body, func(nd ast.Node) bool {
+			call, ok := nd.(*ast.CallExpr)
+			if !ok || !isFunc(callee(info, call), "reflect", "Value", "IsNil") {
+				return true
+			}
+			sel, ok := ast.Unparen(call.Fun).(*ast.SelectorExpr)
+			if !ok {
+				return true
+			}
+			n++
+			c.Fn(fb.Root())
+			if pm == nil {
+				pm = parentMap(fb.Body)
+			}
+			recv := exprStr(sel.X)
+			isKindOf := func(e ast.Expr) bool {
+				kc, ok := ast.Unparen(e).(*ast.CallExpr)
+				if !ok || !isFunc(callee(info, kc), "reflect", "Value", "Kind") {
+					return false
+				}
+				ks, ok := ast.Unparen(kc.Fun).(*ast.SelectorExpr)
+				return ok && exprStr(ks.X) == recv
+			}
+			kindName := func(e ast.Expr) string {
+				if s, ok := ast.Unparen(e).(*ast.SelectorExpr); ok {
+					if o := info.Uses[s.Sel]; o != nil && o.Pkg() != nil && o.Pkg().Path() == "reflect" {
+						return s.Sel.Name
+					}
+				}
+				return ""
+			}
+			guarded := false
+			var child ast.Node = call
+			for p := pm[call]; p != nil && !guarded; child, p = p, pm[p] {
+				switch x := p.(type) {
+				case *ast.CaseClause:
+					sw, _ := pm[pm[x]].(*ast.SwitchStmt)
+					if sw != nil && sw.Tag != nil && isKindOf(sw.Tag) && len(x.List) > 0 {
+						all := true
+						for _, e := range x.List {
+							if !nillable[kindName(e)] {
+								all = false
+							}
+						}
+						guarded = all
+					}
+				case *ast.BinaryExpr:
+					// x.Kind() == K && <...IsNil...>
+					if x.Op == token.LAND && x.Y == child {
+						if be, ok := ast.Unparen(x.X).(*ast.BinaryExpr); ok && be.Op == token.EQL && isKindOf(be.X) && nillable[kindName(be.Y)] {
+							guarded = true
+						}
+					}
+				case *ast.IfStmt:
+					if within(call, x.Body) {
+						if be, ok := ast.Unparen(x.Cond).(*ast.BinaryExpr); ok && be.Op == token.EQL && isKindOf(be.X) && nillable[kindName(be.Y)] {
+							guarded = true
+						}
+					}
+				}
+			}
+			c.Decide(guarded, rule, ordinal(ord, "IsNil("+recv+")@"+fnDisplay(fb.Root())), call.Pos(), "the value's kind was tested to be nillable",
+				"`"+exprStr(call)+"` is called without a test that "+recv+" has a nillable kind: for a string, number, bool or struct value reflect panics (\"call of reflect.Value.IsNil on string Value\") — e.g. an element of the map[string]string that a template function returned and a ref: passed on to another task")
+			return true
+		})
+	}
+	c.Floor(rule, n, 1)
 }
